@@ -4,7 +4,7 @@ from __future__ import annotations
 import ast
 from typing import Dict, List, Optional, Tuple, Iterable
 
-from .model import Project, FuncInfo, ClassInfo, norm_text, unparse
+from .model import Project, FuncInfo, ClassInfo, norm_text, unparse, CALL_CTX
 
 
 def calls_to(p: Project, f: FuncInfo, callee_key: Optional[str] = None, name: Optional[str] = None) -> List[ast.Call]:
@@ -31,13 +31,27 @@ def kw(call: ast.Call, callee: Optional[FuncInfo] = None) -> Dict[str, ast.expr]
         b, _ = Project.bind(call, callee)
     else:
         b = {k.arg: k.value for k in call.keywords if k.arg}
+        # positional arguments are reported under the parameter names of the callee when the callee resolves unambiguously: f(x, y) and f(a=x, b=y) look the same to a rule
+        ctx = CALL_CTX.get(id(call))
+        if ctx is not None and call.args and not any(isinstance(a, ast.Starred) for a in call.args):
+            try:
+                tg = ctx[0].resolve_call(call, ctx[1])
+            except Exception:
+                tg = []
+            names = {tuple(t.call_params[:len(call.args)]) for t in tg if len(t.call_params) >= len(call.args)}
+            if tg and len(names) == 1 and all(len(t.call_params) >= len(call.args) for t in tg):
+                for nm, a in zip(next(iter(names)), call.args):
+                    b.setdefault(nm, a)
     return {k: see_through(call, v) for k, v in b.items()}
+
+
+_FN_INDEX: Dict[int, tuple] = {}
 
 
 def _fn_index(fn: ast.AST):
     """per function (cached on the node): name -> (stores, loads) in the function's own scope, statement -> (block, position), expression node -> statement"""
-    idx = getattr(fn, "_sa_index", None)
-    if idx is not None:
+    idx = _FN_INDEX.get(id(fn))
+    if idx is not None and idx[5] is fn:
         return idx
     stores: Dict[str, List[ast.AST]] = {}
     loads: Dict[str, int] = {}
@@ -66,15 +80,16 @@ def _fn_index(fn: ast.AST):
                 banned.update(ch.names)
             walk(ch, cur, sub)
     walk(fn, None, False)
-    fn._sa_index = (stores, loads, banned, where, stmt_of)
-    return fn._sa_index
+    _FN_INDEX[id(fn)] = (stores, loads, banned, where, stmt_of, fn)   # the node itself is kept so that a recycled id is never mistaken for it
+    return _FN_INDEX[id(fn)]
 
 
 def see_through(anchor: ast.AST, e: ast.expr, depth: int = 4) -> ast.expr:
     """if e is a single-use temporary defined in the statements immediately before the statement that contains `anchor`, the expression it was bound to"""
-    fn = getattr(anchor, "_sa_fn", None)
+    _c = CALL_CTX.get(id(anchor))
+    fn = _c[1].node if _c is not None else None
     while depth > 0 and fn is not None and isinstance(e, ast.Name) and isinstance(e.ctx, ast.Load):
-        stores, loads, banned, where, stmt_of = _fn_index(fn)
+        stores, loads, banned, where, stmt_of, _ = _fn_index(fn)
         x = e.id
         if x in banned or loads.get(x, 0) != 1 or len(stores.get(x, [])) != 1:
             break
@@ -197,6 +212,21 @@ def inline_locals(f: FuncInfo, e: ast.expr, depth: int = 5) -> ast.expr:
 def kwr(f: FuncInfo, call: ast.Call, callee: Optional[FuncInfo] = None) -> Dict[str, str]:
     """keyword (bound) arguments of a call as name-free normalised text: single-assignment locals inlined, np.array(...) wrappers stripped"""
     return {k: norm_text(strip_np_array(inline_locals(f, v))) for k, v in kw(call, callee).items()}
+
+
+class _NoKw(ast.NodeTransformer):
+    def visit_Call(self, n):
+        self.generic_visit(n)
+        if n.keywords and all(k.arg is not None for k in n.keywords):
+            return ast.Call(func=n.func, args=list(n.args) + [k.value for k in n.keywords], keywords=[])
+        return n
+
+
+def text_nokw(e: ast.AST) -> str:
+    """normalised text with every keyword argument written positionally (in the order it stands in the call): `f(a=x)` and `f(x)` read the same.
+    Calls to project functions are keywordised in parameter order when the project is loaded, so for them this is the all-positional spelling."""
+    import copy
+    return norm_text(_NoKw().visit(copy.deepcopy(e)), 400)
 
 
 def is_value_of(f: FuncInfo, e: ast.expr, target: ast.AST) -> bool:
